@@ -11,10 +11,10 @@ git -C /repo worktree add --detach $wt HEAD >/dev/null 2>&1 || { echo "worktree 
 cd $wt
 head=$(git rev-parse --short HEAD)
 ./configure >/dev/null 2>&1
-make -j4 >/dev/null 2>&1 || { echo "{\"id\":\"$id\",\"error\":\"unpatched build failed\"}" > $src/confirm.json; }
+make -j2 >/dev/null 2>&1 || { echo "{\"id\":\"$id\",\"error\":\"unpatched build failed\"}" > $src/confirm.json; }
 bash $src/demo.sh $wt > $src/demo_unpatched.log 2>&1; d0=$?
 git apply $src/patch.diff 2> $src/apply.log; ap=$?
-make -j4 > $src/build_patched.log 2>&1; b=$?
+make -j2 > $src/build_patched.log 2>&1; b=$?
 make tests > /tmp/cs/$id.tests.log 2>&1; t=$?
 fails=$(grep -ci "fail" /tmp/cs/$id.tests.log)
 passes=$(grep -c "PASS" /tmp/cs/$id.tests.log)
